@@ -52,8 +52,8 @@ Proof.
         destruct (last_of s st) as [n|]; [|destruct H]. destruct H as [H|[]]. subst e. exists false. cbn. repeat split; try reflexivity; discriminate.
       * destruct zw; cbn [andb] in H; [|destruct H].
         destruct (negb _ && rt_has); [|destruct H]. destruct H as [H|[]]. subst e. exists true. cbn. repeat split; reflexivity.
-  - destruct (last_of s st) as [n|]; cbn [fst snd]; [|intros []]. intros [H|[]]. subst e. exists false. cbn. repeat split; try reflexivity; discriminate.
-  - intro H. apply in_map_iff in H. destruct H as [sn [H _]]. subst e. exists false. cbn. repeat split; try reflexivity; discriminate.
+  - destruct (last_of s st) as [n|]; cbn [fst snd]; [|intros []]. destruct rt_has; [|intros []]. intros [H|[]]. subst e. exists false. cbn. repeat split; try reflexivity; discriminate.
+  - destruct rt_has; [|intros []]. intro H. apply in_map_iff in H. destruct H as [sn [H _]]. subst e. exists false. cbn. repeat split; try reflexivity; discriminate.
   - intros [].
 Qed.
 
